@@ -16,17 +16,17 @@
 (***************************************************************************)
 EXTENDS Routing, Json
 CONSTANT MaxSilent
-VARIABLES l, sc
+VARIABLES l, sc, held
 TraceLog == ndJsonDeserialize("trace.ndjson")
-tvars == <<vars, l, sc>>
+tvars == <<vars, l, sc, held>>
 Ev == TraceLog[l]
 ASSUME TLCSet(1, 0)
 
 DefaultRoute == [s \in Src |-> [i \in 1..MaxId |-> CHOOSE t \in Tgt : TRUE]]
-TraceInit == InitWith(DefaultRoute) /\ l = 1 /\ sc = 0
+TraceInit == InitWith(DefaultRoute) /\ l = 1 /\ sc = 0 /\ held = {}
 
 IsEvent(e) == l <= Len(TraceLog) /\ Ev.ev = e /\ l' = l + 1 /\ sc' = 0
-Stutter(names) == l <= Len(TraceLog) /\ Ev.ev \in names /\ l' = l + 1 /\ sc' = 0 /\ UNCHANGED vars
+Stutter(names) == l <= Len(TraceLog) /\ Ev.ev \in names /\ l' = l + 1 /\ sc' = 0 /\ UNCHANGED <<vars, held>>
 
 ResetTo(rt, late) ==
   /\ route' = rt
@@ -42,16 +42,20 @@ ResetTo(rt, late) ==
   /\ prevAck' = [t \in Tgt |-> [s \in Src |-> Absent]]
   /\ spc' = [t \in Tgt |-> "idle"] /\ fwd' = [t \in Tgt |-> [s \in Src |-> Absent]]
   /\ fallback' = [t \in Tgt |-> FALSE] /\ discardN' = [t \in Tgt |-> 0] /\ tackWire' = [t \in Tgt |-> <<>>]
-  /\ inflight' = [t \in Tgt |-> NoFlight] /\ replayTo' = [t \in Tgt |-> {}]
+  /\ inflight' = [t \in Tgt |-> NoFlight] /\ replayTo' = [t \in Tgt |-> {}] /\ lastSent' = [t \in Tgt |-> 0]
   /\ trkHigh' = [t \in Tgt |-> 0] /\ trkQ' = [t \in Tgt |-> <<>>]
   /\ pidMap' = [t \in Tgt |-> <<>>] /\ conf' = {} /\ delivered' = {}
   /\ received' = [s \in Src |-> {}] /\ lastAck' = [s \in Src |-> 0] /\ faults' = 0
   /\ lost' = {} /\ viol' = {}
 
+\* ids beyond the listed ones are owned by the last listed owner (the harness does the same)
 RouteOf(e) == [s \in Src |-> [i \in 1..MaxId |->
-                 IF ToString(s) \in DOMAIN e.route /\ i <= Len(e.route[ToString(s)])
-                 THEN e.route[ToString(s)][i] ELSE CHOOSE t \in Tgt : TRUE]]
-TConfig == IsEvent("Config") /\ ResetTo(RouteOf(Ev), {Ev.late[i] : i \in 1..Len(Ev.late)})
+                 IF ToString(s) \in DOMAIN e.route /\ Len(e.route[ToString(s)]) > 0
+                 THEN (IF i <= Len(e.route[ToString(s)]) THEN e.route[ToString(s)][i]
+                                                        ELSE e.route[ToString(s)][Len(e.route[ToString(s)])])
+                 ELSE CHOOSE t \in Tgt : TRUE]]
+TConfig == IsEvent("Config") /\ ResetTo(RouteOf(Ev), {Ev.late[i] : i \in 1..Len(Ev.late)}) /\ held' = {}
+H(A) == A /\ UNCHANGED held
 
 TSrcBatch ==
   /\ IsEvent("SrcBatch")
@@ -68,10 +72,9 @@ TTgtMsg ==
        /\ \A i \in 1..n : \E j \in 1..Len(pidMap[Ev.t]) :
              LET e == pidMap[Ev.t][j] IN e.pid = Ev.pids[i] /\ e.task /\ e.src = Ev.tasks[i].s /\ e.orig = Ev.tasks[i].id
 \* keep-alive of the sender (1 s idle): the last exclusive high again, no tasks, no ring entry
-TTgtKeepAlive == /\ IsEvent("TgtMsg") /\ Ev.ka /\ Len(Ev.pids) = 0 /\ Live(Ev.t) /\ inflight[Ev.t] = NoFlight
-                 /\ trkHigh[Ev.t] # 0 /\ Ev.high = trkHigh[Ev.t] /\ UNCHANGED vars
+TTgtKeepAlive == /\ IsEvent("TgtMsg") /\ Ev.ka /\ Len(Ev.pids) = 0 /\ KeepAliveMsg(Ev.t) /\ Ev.high = lastSent[Ev.t]
 \* keep-alive of the receiver (1 s idle): the last aggregated ack again
-TSrcKeepAlive == /\ IsEvent("SrcAck") /\ Ev.ka /\ srcUp[Ev.s] = "up" /\ lastAck[Ev.s] = Ev.a /\ Ev.a > 0 /\ UNCHANGED vars
+TSrcKeepAlive == /\ IsEvent("SrcAck") /\ Ev.ka /\ KeepAliveAck(Ev.s) /\ lastAck[Ev.s] = Ev.a
 TTgtDone == IsEvent("TgtDone") /\ \E i \in 1..Len(trkQ[Ev.t]) : trkQ[Ev.t][i] = Ev.pid /\ TgtDone(Ev.t, i)
 TTgtAck == IsEvent("TgtAck") /\ TgtAck(Ev.t) /\ tackWire'[Ev.t][Len(tackWire'[Ev.t])] = Ev.w
 Emits(s) == srcAck'[s] # srcAck[s] \/ lastAck'[s] # lastAck[s] \/ lastSentMin'[s] # lastSentMin[s]
@@ -90,21 +93,31 @@ TTgtOpen == /\ IsEvent("TgtOpen")
             /\ IF up[Ev.t] = "down" THEN ReopenTgt(Ev.t) ELSE (Ev.inc = 1 /\ UNCHANGED vars)
 TTgtClose == IsEvent("TgtClose") /\ BreakTgt(Ev.t)
 TTgtGone == IsEvent("TgtGone") /\ up[Ev.t] = "down" /\ UNCHANGED vars
+\* the harness holds S[t] right after close(sendMsgChan) (hook sender.run.afterClose) ... and lets it go again
+TTgtHeld == IsEvent("TgtHeld") /\ up[Ev.t] = "closed" /\ held' = held \cup {Ev.t} /\ UNCHANGED vars
+TTgtRelease == IsEvent("TgtRelease") /\ held' = held \ {Ev.t} /\ UNCHANGED vars
 TSrcOpen == /\ IsEvent("SrcOpen")
             /\ IF srcUp[Ev.s] = "down" THEN ReopenSrc(Ev.s) ELSE (Ev.inc = 1 /\ UNCHANGED vars)
 TSrcClose == IsEvent("SrcClose") /\ BreakSrc(Ev.s)
 TSrcGone == IsEvent("SrcGone") /\ srcUp[Ev.s] = "down" /\ UNCHANGED vars
 \* at a successful settle the proxy has nothing left to do
+\* what the proxy can still do by itself (a sender the harness holds in its close window cannot deregister)
+InternalNow == \/ \E s \in Src, t \in Tgt : Deliver(s, t) \/ Bcast(s, t) \/ ForwardAck(t, s) \/ ReplayWm(t, s)
+               \/ \E t \in Tgt : SenderDequeue(t) \/ SenderRecvAck(t) \/ FinishAck(t) \/ SenderClose(t)
+               \/ \E t \in Tgt \ held : SenderGone(t)
+               \/ \E s \in Src : Aggregate(s) \/ SrcStop(s)
 TQuiet == /\ IsEvent("Quiet") /\ UNCHANGED vars
-          /\ (Ev.ok => ~ENABLED Internal)
-TOther == Stutter({"End", "Unrealised", "Stuck", "Final", "Tick"})
+          /\ (Ev.ok => ~ENABLED InternalNow)
+TOther == Stutter({"End", "Unrealised", "Stuck", "Final", "Tick", "Idle"})
 
-TSilent == /\ l <= Len(TraceLog) /\ sc < MaxSilent /\ sc' = sc + 1 /\ l' = l
+TSilent == /\ l <= Len(TraceLog) /\ sc < MaxSilent /\ sc' = sc + 1 /\ l' = l /\ UNCHANGED held
            /\ \/ \E s \in Src, t \in Tgt : Deliver(s, t) \/ Bcast(s, t) \/ ForwardAck(t, s) \/ ReplayWm(t, s)
-              \/ \E t \in Tgt : SenderDequeue(t) \/ SenderRecvAck(t) \/ FinishAck(t) \/ SenderStop(t)
+              \/ \E t \in Tgt : SenderDequeue(t) \/ SenderRecvAck(t) \/ FinishAck(t) \/ SenderClose(t)
+              \/ \E t \in Tgt \ held : SenderGone(t)
               \/ \E s \in Src : AggregateQuiet(s) \/ SrcStop(s)
-Matching == TConfig \/ TSrcBatch \/ TTgtMsg \/ TTgtKeepAlive \/ TSrcKeepAlive \/ TTgtDone \/ TTgtAck \/ TSrcAck \/ TTgtOpen \/ TTgtClose \/ TTgtGone
-            \/ TSrcOpen \/ TSrcClose \/ TSrcGone \/ TQuiet \/ TOther
+Matching == TConfig \/ TTgtHeld \/ TTgtRelease
+            \/ H(TSrcBatch \/ TTgtMsg \/ TTgtKeepAlive \/ TSrcKeepAlive \/ TTgtDone \/ TTgtAck \/ TSrcAck \/ TTgtOpen
+                 \/ TTgtClose \/ TTgtGone \/ TSrcOpen \/ TSrcClose \/ TSrcGone \/ TQuiet) \/ TOther
 TraceNext == Matching \/ TSilent
 TraceSpec == TraceInit /\ [][TraceNext]_tvars
 
@@ -114,5 +127,5 @@ Accepted == IF TLCGet(1) = Len(TraceLog) + 1 THEN PrintT(<<"TRACE_ACCEPTED", Len
 \* acceptance as a (deliberately) violated invariant: with the depth-first queue TLC stops at the first accepting path
 NotAccepted == l <= Len(TraceLog)
 Brief == [l |-> l, sc |-> sc]
-TView == <<route, srcVars, rcvVars, sndVars, tgtVars, pidMap, l, sc>>
+TView == <<route, srcVars, rcvVars, sndVars, tgtVars, pidMap, l, sc, held>>
 =============================================================================
